@@ -137,8 +137,9 @@ type sess struct {
 	sent   map[uint64]*spb.AFTOperation
 	// results seen per op id on this session's stream, in order
 	got map[uint64][]spb.AFTResult_Status
-	// wasPrimary is set when an operation of this session was accepted while it was primary
-	lostPrimary bool
+	// exempt: operations that were unanswered when the session lost the primary role (the property allows them to
+	// stay unanswered; the server cancels held operations on a change of primary)
+	exempt map[uint64]bool
 }
 
 type inst struct {
@@ -276,6 +277,17 @@ func (in *inst) Apply(li int, check bool) []mc.Fail {
 		s.last = &id
 		if in.max == nil || id.Cmp(*in.max) >= 0 {
 			in.max = &id
+			if in.prim >= 0 && in.prim != l.S {
+				old := in.ss[in.prim]
+				if old.exempt == nil {
+					old.exempt = map[uint64]bool{}
+				}
+				for oid := range old.sent {
+					if len(old.got[oid]) == 0 {
+						old.exempt[oid] = true
+					}
+				}
+			}
 			in.prim = l.S
 		}
 		if in.o.Checks.Election && check {
@@ -532,7 +544,7 @@ func (in *inst) stateChecks() []mc.Fail {
 				continue
 			}
 			for id, op := range s.sent {
-				if len(s.got[id]) == 0 && !held[id] {
+				if len(s.got[id]) == 0 && !held[id] && !s.exempt[id] {
 					out = append(out, mc.Fail{Sig: "C06/operation-never-answered", What: fmt.Sprintf("session %d (primary) operation %d (%s) has no result and is not held", i, id, ribx.Text(op))})
 				}
 			}
@@ -564,7 +576,12 @@ func (in *inst) Canon() string {
 			}
 		}
 		sort.Strings(un)
-		ss = append(ss, fmt.Sprintf("{last=%v prim=%v next=%d got=%v unanswered=%v}", s.last, in.prim == i, s.nextOp, gs, un))
+		var ex []string
+		for id := range s.exempt {
+			ex = append(ex, fmt.Sprint(id))
+		}
+		sort.Strings(ex)
+		ss = append(ss, fmt.Sprintf("{last=%v prim=%v next=%d got=%v unanswered=%v exempt=%v}", s.last, in.prim == i, s.nextOp, gs, un, ex))
 	}
 	sort.Strings(ss)
 	primState := "live"
